@@ -248,6 +248,9 @@ func c20Run(c c20Case) (err error, harness error) {
 				return fmt.Errorf("%s never returned and the stream observer's lock is held", what), nil
 			}
 			w.observer.streamGrowLock.Unlock()
+			if where := vfChanSendBlockedInRepo("StreamWorkflowReplicationMessages"); where != "" {
+				return fmt.Errorf("%s is neither served nor rejected: 15 s later its handler is still blocked sending on a channel in %s", what, where), nil
+			}
 			return nil, fmt.Errorf("%s did not return within the real-time backstop (lock is free: inconclusive)", what)
 		}
 		if len(held) == 0 {
@@ -412,6 +415,23 @@ func TestVF_C20_Boundary(t *testing.T) {
 				}
 				run(c20Case{Mode: mode, L: 4, R: 6, Opens: []c20Open{mk(x, true), mk(y, false)}, After: 1})
 			}
+		}
+	}
+	// many opens in a row whose shard ids the observer cannot track (negative, beyond 2^24): whatever is kept about such
+	// ids (a log line, a counter, a queue) must not fill up - open 40 is served or rejected like open 1, and well-formed
+	// opens are served afterwards
+	for _, mode := range []string{"default", "routing", "lcm"} {
+		for _, key := range []int{1, 3} {
+			c := c20Case{Mode: mode, L: 4, R: 6, After: 2}
+			for i := 0; i < 40; i++ {
+				o := c20Open{}
+				for k := 0; k < 4; k++ {
+					o.MD[k] = []string{good[k]}
+				}
+				o.MD[key] = []string{[]string{"-5", "16777300", "-2147483648", "2147483647"}[i%4]}
+				c.Opens = append(c.Opens, o)
+			}
+			run(c)
 		}
 	}
 	// two streams that are served by the same server shard (the initiator's cluster has more shards than the serving
